@@ -513,6 +513,9 @@ class PolygonTensor(PolytopeTensor):
             try:
                 result = self._plane.meet(other._line)
             except LinearDependenceError as e:
+                if other._line.free_indices == 0 and self._plane.free_indices == 0:
+                    # a single segment in the plane of a single polygon: no isolated point of intersection
+                    return []
                 if other._line.free_indices > 0:
                     other = cast(SegmentTensor, other[~e.dependent_values])
                 polygons: PolygonTensor = self
@@ -526,6 +529,9 @@ class PolygonTensor(PolytopeTensor):
         try:
             result = self._plane.meet(other)
         except LinearDependenceError as e:
+            if other.free_indices == 0 and self._plane.free_indices == 0:
+                # a single line in the plane of a single polygon: no isolated point of intersection
+                return []
             if other.free_indices > 0:
                 other = other[~e.dependent_values]
             polygons = self
